@@ -3,7 +3,7 @@
    of branch `packet`); proofs: Proofs/PacketProofs.v; replay filter: Model/Replay.v, Proofs/ReplayProofs.v.
    `seal` / `open` are arbitrary functions (Section variables, universally quantified in every theorem):
    theorems without a named hypothesis hold for ANY AEAD, even a broken one. *)
-From Hop Require Import Base Replay ReplayProofs Packet PacketProofs PacketExamples.
+From Hop Require Import Base Replay ReplayProofs Packet PacketProofs PacketExamples PacketSanse PacketSanseProofs.
 Open Scope N_scope.
 
 (* ---- "datagrams that do not authenticate never close or disturb an established session" ---- *)
@@ -266,3 +266,73 @@ Theorem c03_write_wire_is_header_plus_seal :
   forall seal max ss b w, write seal max ss b = Some w -> Forall (is_image_of seal ss b) (w_out w).
 Proof. exact write_wire. Qed.
 Print Assumptions c03_write_wire_is_header_plus_seal.
+
+(* ====================================================================================================== *)
+(* The real AEAD: Section variables instantiated with Kravatte-SANSE exactly as transport.go calls it      *)
+(* (Model/PacketSanse.v: fresh NewSANSE(key) per packet, nonce nil, AD = the 16 header bytes), on the      *)
+(* executable model of Model/Sanse.v / Kravatte.v.  The AEAD hypotheses are DISCHARGED from C12's theorems *)
+(* (open_seal, seal_length, kv_out_length); only INT-CTXT remains a (cryptographic) hypothesis elsewhere.  *)
+(* ====================================================================================================== *)
+
+Theorem c03_sanse_open_seal : forall k ad p, good_key k -> sanse_open k ad (sanse_seal k ad p) = Some p.
+Proof. exact sanse_open_seal. Qed.
+Print Assumptions c03_sanse_open_seal.
+
+Theorem c03_sanse_seal_length : forall k ad p, good_key k -> len (sanse_seal k ad p) = tag_len + len p.
+Proof. exact sanse_seal_len. Qed.
+Print Assumptions c03_sanse_seal_length.
+
+Theorem c03_sanse_open_length : forall k ad ct p, sanse_open k ad ct = Some p -> len p + 32 = len ct.
+Proof. exact sanse_open_len. Qed.
+Print Assumptions c03_sanse_open_length.
+
+(* unconditional: with the real AEAD, write of any size on a faithful network is delivered completely
+   (good_key = the key is one NewSANSE accepts, 1..199 bytes; transport keys are 16 bytes: c03_key16_good) *)
+Theorem c03_write_delivered_on_faithful_network_sanse :
+  forall max A B a b w,
+    good_key (key_send A) ->
+    0 < max -> in_sync A B ->
+    count A + len b + 1 < lim ->
+    qlen (queue B) + len b + 1 <= qcap B ->
+    write sanse_seal max A b = Some w ->
+    w_err w = false /\ w_panic w = false /\ w_n w = len b /\
+    Forall (fun d : dgram => snd d = remote A) (w_out w) /\
+    exists B', feed sanse_open B a (map fst (w_out w)) = Ok (B', repeat ODelivered (length (w_out w))) /\
+               List.concat (queue B') = List.concat (queue B) ++ b /\ rbuf B' = rbuf B /\ remote B' = a.
+Proof. exact write_delivered_sanse. Qed.
+Print Assumptions c03_write_delivered_on_faithful_network_sanse.
+
+Theorem c03_key16_good : forall k, len k = 16 -> good_key k.
+Proof. exact key16_good. Qed.
+Print Assumptions c03_key16_good.
+
+(* unconditional: with the real AEAD the receive handlers and send never panic *)
+Theorem c03_handler_never_panics_sanse : forall ss a pkt, session_input sanse_open ss a pkt <> Panic.
+Proof. exact session_input_never_panics_sanse. Qed.
+Print Assumptions c03_handler_never_panics_sanse.
+
+Theorem c03_server_never_panics_sanse : forall sv a pkt, server_handle sanse_open sv a pkt <> Panic.
+Proof. exact server_never_panics_sanse. Qed.
+Print Assumptions c03_server_never_panics_sanse.
+
+Theorem c03_client_never_panics_sanse : forall ss a pkt, client_handle sanse_open ss a pkt <> Panic.
+Proof. exact client_never_panics_sanse. Qed.
+Print Assumptions c03_client_never_panics_sanse.
+
+Theorem c03_send_never_panics_sanse : forall ss mt m, good_key (key_send ss) -> send sanse_seal ss mt m <> Panic.
+Proof. exact send_never_panics_sanse. Qed.
+Print Assumptions c03_send_never_panics_sanse.
+
+(* executed on the Kravatte model: the example sessions, a 7-byte write cut at 3, a flipped copy rejected *)
+Example c03_sanse_instance_runs :
+  in_sync exA exB /\ good_key (key_send exA) /\
+  match write sanse_seal 3 exA [10; 11; 12; 13; 14; 15; 16] with
+  | Some w =>
+    match feed sanse_open exB 9 (map fst (w_out w)) with
+    | Ok (B', os) => w_n w = 7 /\ queue B' = [[10; 11; 12]; [13; 14; 15]; [16]] /\
+                     os = [ODelivered; ODelivered; ODelivered] /\ map (fun d => len (fst d)) (w_out w) = [51; 51; 49]
+    | _ => False
+    end
+  | None => False
+  end.
+Proof. split; [exact ex_in_sync|]. split; [apply key16_good; reflexivity|]. vm_compute. repeat split; reflexivity. Qed.
